@@ -105,7 +105,9 @@ def rand_case(rng, n_files=None):
     files = rng.sample(NAMES, n_files if n_files is not None else rng.choice([0, 1, 1, 2, 3, 4]))
     scripts = [f for f in files if not f.endswith(".css")]
     sheets = [f for f in files if f.endswith(".css")]
-    return {"name": rng.choice(["dep-1", "my.dep", "d_2", "Dep"]), "version": rng.choice(["1.0", "2.10.3", "0.1"]),
+    # (names and versions that are written into the URL as they are and name the directory as they are: characters that
+    #  percent-DEcoding leaves alone; '%', '#', '?' in a NAME would make the URL mean something else and are not used)
+    return {"name": rng.choice(["dep-1", "my.dep", "d_2", "Dep", "dep-1", "my lib", "d\u00e9p", "a+b", "at@sign,x"]), "version": rng.choice(["1.0", "2.10.3", "0.1", "1.0+build.5", "1!2.0"]),
             "scripts": scripts, "sheets": sheets, "source_kind": rng.choice(["abs", "abs", "rel", "pkg", "pkg_libtest", "url", "url_slash", "none"]),
             "all_files": rng.random() < 0.25, "libdir": rng.choice(["lib", "lib", None, "a/b", "lib x"]), "include_version": rng.random() < 0.6,
             "prepopulate": rng.random() < 0.5, "prepopulate_same_names": rng.random() < 0.5, "copied_before": rng.random() < 0.4, "positional_args": rng.random() < 0.4,
@@ -232,6 +234,14 @@ def _run_case(ctx, case, scratch, dep, srcdir, scripts, sheets, wit):
                     fh.write("OLD VERSION OF " + f)
         for p in ("stale.txt", "old/nested/stale2.js", ".stale-hidden"):
             with open(os.path.join(target, p), "w") as f:
+                f.write("stale")
+        # leftovers NEXT to the target whose names start like it (staging / backup directories of some earlier run or tool):
+        # nothing of theirs may end up inside the dependency's directory
+        first = (scripts + sheets + ["x.js"])[0].split("/")[0]
+        for suffix in (".tmp", ".bak", "~", ".old", "-staging"):
+            lo = target + suffix
+            os.makedirs(os.path.join(lo, first), exist_ok=True)     # a DIRECTORY named like the first listed file
+            with open(os.path.join(lo, "stale-leftover.txt"), "w") as f:
                 f.write("stale")
         # a sibling that is not the dependency's directory must survive
         os.makedirs(os.path.join(destdir, "sibling-keep"), exist_ok=True)
@@ -429,6 +439,52 @@ def run_siblings_case(ctx, rng, scratch):
     return verify("second save after the sources changed")
 
 
+def run_many_case(ctx, rng, scratch):
+    """More dependencies in one page than any batching / pooling threshold; optionally one of them lists a missing file."""
+    n = rng.choice([17, 18, 33, 70])
+    missing_at = rng.choice([None, 0, n // 2, n - 1, n - 1])
+    out = scratch.dir("out")
+    base = scratch.dir("src")
+    deps, srcs = [], []
+    for i in range(n):
+        srcdir = os.path.join(base, "s%d" % i)
+        f = "f%d.js" % i
+        make_source(srcdir, [f], extra=False)
+        if i == missing_at:
+            os.remove(os.path.join(srcdir, f))
+        deps.append(ht.HTMLDependency("many%d" % i, "1.%d" % i, source={"subdir": srcdir}, script={"src": f}))
+        srcs.append((srcdir, f))
+    via = rng.choice(["document", "tag", "list"])
+    content = ht.div("t", *deps)
+    obj = ht.HTMLDocument(content) if via == "document" else content if via == "tag" else ht.TagList("t", content)
+    wit = {"scenario": "many dependencies", "n": n, "missing_at": missing_at, "via": via}
+    ctx.count("monitor.many_dependency_saves")
+    file = os.path.join(out, "index.html")
+    exc = None
+    try:
+        obj.save_html(file, libdir="lib")
+    except Exception as e:
+        exc = e
+    if missing_at is not None:
+        ctx.count("monitor.faults")
+        if exc is None:
+            ctx.violation("missing-file-not-reported", "save_html of %d dependencies succeeded although dependency %d lists a missing file" % (n, missing_at), wit)
+            return False
+        if os.path.exists(os.path.join(out, "lib", "many%d-1.%d" % (missing_at, missing_at))):
+            ctx.violation("target-touched-before-raise", "the target directory of the dependency with the missing file was created", wit)
+            return False
+        return True
+    if exc is not None:
+        ctx.violation("copy-raises", "save_html of %d dependencies raised %r" % (n, exc), wit)
+        return False
+    for i, (srcdir, f) in enumerate(srcs):
+        p = os.path.join(out, "lib", "many%d-1.%d" % (i, i), f)
+        if not os.path.isfile(p) or sha(p) != sha(os.path.join(srcdir, f)):
+            ctx.violation("copied-file-differs", "file of dependency %d of %d is missing or differs" % (i, n), wit)
+            return False
+    return True
+
+
 def replay(ctx, w):
     scratch = Scratch()
     try:
@@ -481,6 +537,9 @@ def run(ctx):
             if rng.random() < 0.15:
                 ctx.guard(run_siblings_case, ctx, rng, scratch, witness={"scenario": "sibling dependencies"})
                 ctx.case(("siblings", scratch.n), nontrivial=True)
+            if rng.random() < 0.08:
+                ctx.guard(run_many_case, ctx, rng, scratch, witness={"scenario": "many dependencies"})
+                ctx.case(("many", scratch.n), nontrivial=True)
             if scratch.n > 400:
                 scratch.close()
                 scratch = Scratch()
